@@ -372,6 +372,8 @@ func (w *world) cliScenario(c Case, compare bool, transcript string) CliScn {
 	return scn
 }
 
+var widthBlock = map[string]bool{"configure terminal": true, "terminal width 511": true, "end": true}
+
 const errLine = "ERROR: % Invalid input detected at '^' marker.\n"
 
 // commands of the login / set-up dialogue that a device may answer with an error line
@@ -834,6 +836,9 @@ func matrix(ctx *Ctx, prop string) []Case {
 				if b == "nsx" && h != "ok" {
 					continue // an NSX manager never reports a name
 				}
+				if fr == "do-approve" && (h == "prefix" || h == "case") && !ctx.Thorough() {
+					continue // quick tier: the finer hostname variants through drc only
+				}
 				for _, m := range markers {
 					if (b == "nsx" || b == "panos") && m == "unconfigured" && prop == "C06" && fr == "do-approve" {
 						continue // checkbanner does not concern the HTTP types; one front end is enough
@@ -878,7 +883,8 @@ func matrix(ctx *Ctx, prop string) []Case {
 			for _, pend := range []int{0, 1} {
 				c := Case{Backend: b, Front: "drc", Host: "ok", Marker: "present", HA: "off", Pending: pend, FaultAt: -1, ErrOn: cmdText}
 				out = append(out, c)
-				if b == "asa" {
+				if b == "asa" && !widthBlock[cmdText] {
+					// (with the width already 511 the width block is not sent during set-up)
 					c.PagerOff, c.Width511 = true, true
 					out = append(out, c)
 				}
@@ -943,6 +949,9 @@ func randomCase(r *RNG, prop string) Case {
 	}
 	if l := errOnCmds[b]; len(l) > 0 && r.Chance(25) {
 		c.ErrOn = Pick(r, l)
+		if c.Width511 && widthBlock[c.ErrOn] {
+			c.ErrOn = "sh ver"
+		}
 	}
 	c.BadConfig = b != "linux" && r.Chance(6)
 	if prop == "C11" && r.Chance(60) {
@@ -951,7 +960,7 @@ func randomCase(r *RNG, prop string) Case {
 		if c.isHTTP() {
 			c.FaultKind = Pick(r, []string{"500", "close"})
 		} else {
-			c.FaultKind = Pick(r, []string{"close", "close", "close", "silence"})
+			c.FaultKind = Pick(r, []string{"close", "close", "close", "close", "close", "close", "close", "silence"})
 		}
 	}
 	return c
@@ -1271,7 +1280,7 @@ func run(ctx *Ctx, prop string) *Result {
 				Case{Backend: "linux", Front: "drc", Host: "ok", Marker: "present", HA: "off", Pending: 1, FaultAt: -1, Login: "nopass", Perl: perlSim})
 		}
 		cases = append(cases, matrix(ctx, prop)...)
-		n := ctx.N(150, 2500)
+		n := ctx.N(80, 2500)
 		for i := 0; i < n; i++ {
 			cases = append(cases, randomCase(ctx.Rng.Fork(), prop))
 		}
